@@ -206,7 +206,7 @@ class SSHAuthorizedKeys:
     def load(self, authorized_keys: str) -> None:
         """Load authorized keys data into this object"""
 
-        for line in authorized_keys.splitlines():
+        for line in authorized_keys.split('\n'):
             line = line.strip()
             if not line or line.startswith('#'):
                 continue
